@@ -74,6 +74,9 @@ Muts(b) ==
   \* b1: an index entry whose variants-value has so many axes that the number of possible keys leaves 64 bits
   \* (2^62, 2^63, 2^64, 2^70) or just exceeds the cap (2^14), followed by no location at all or by one
   \cup (IF b.ver = "b1" THEN { [kind |-> "manyaxes", i |-> ax, j |-> np, v |-> U64Zero] : ax \in {13, 14, 62, 63, 64, 70}, np \in {0, 1} } ELSE {})
+  \* the section-lengths byte string padded (by an unknown empty section with a long name) to 8190..8193 bytes: the format
+  \* caps it below 8192
+  \cup { [kind |-> "slsize", i |-> tgt, j |-> 0, v |-> U64Zero] : tgt \in {8190, 8191, 8192, 8193} }
   \* a section the writer never emits for this version ("manifest" in b2, "primary" in b1), holding a URL,
   \* at every position: whatever the reader makes of it, the sections after it stay where the lengths put them
   \cup { [kind |-> "foreign", i |-> p, j |-> 0, v |-> U64Zero] : p \in 1..n }
@@ -113,6 +116,12 @@ Apply(b, m) ==
     [] m.kind = "swap" -> Build(b, Swap(t, m.i, m.j), 2 * n, n, Swap(bd, m.i, m.j))
     [] m.kind = "dupname" -> Build(b, [t EXCEPT ![m.i].name = t[m.j].name], 2 * n, n, bd)
     [] m.kind = "unknown" -> Build(b, InsAt(t, m.i, [name |-> Unknown(m.j).name, len |-> U64(m.j)]), 2 * n + 2, n + 1, InsAt(bd, m.i, Unknown(m.j).body))
+    [] m.kind = "slsize" ->
+         \* 2 * (n + 1) < 24 items: one-byte array head; name of L >= 256 bytes: three-byte text head; length 0: one byte
+         LET slb == Len(SectionLengthsU(t, 2 * n))
+             L == m.i - slb - 3 - 1
+             nm == Rep(L, 122)
+         IN Build(b, InsAt(t, 1, [name |-> nm, len |-> U64Zero]), 2 * n + 2, n + 1, InsAt(bd, 1, <<>>))
     [] m.kind = "manyaxes" ->
          LET vv == AxesValue(m.i)
              ix == EncMap(<< [k |-> EncText(b.exs[1].url), v |-> EncArrayHdr(1 + 2 * m.j) \o EncBytes(vv) \o (IF m.j = 1 THEN EncUint(U64Zero) \o EncUint(U64(1)) ELSE <<>>)] >>)
